@@ -272,6 +272,45 @@ fn main() {
             for (k, v) in reasons { println!("{v:5} {k}"); }
             0
         }
+        "selfcheck" => {
+            // Determinism proof: every simulation is run for many seeds twice, in different OS
+            // processes and at different worker counts; the run digests (hashes over every
+            // simulated process's observable outcome / event log) must agree.
+            let checks = ["c04", "c09", "c13", "c14", "c15", "c16"];
+            let nseeds: u64 = args.get(2).and_then(|x| x.parse().ok()).unwrap_or(8);
+            let scale = args.get(3).cloned().unwrap_or_else(|| "0.05".to_string());
+            let exe = std::env::current_exe().unwrap();
+            let jobs: Vec<(String, u64)> = checks.iter().flat_map(|c| (0..nseeds).map(move |sd| (c.to_string(), sd))).collect();
+            let results = harness::parallel(jobs.len(), 4, |i| {
+                let (c, sd) = &jobs[i];
+                let mut digests = Vec::new();
+                for workers in ["1", "16", "5"] {
+                    let o = std::process::Command::new(&exe)
+                        .arg(c)
+                        .env("VERIF_SEED", sd.to_string())
+                        .env("VERIF_SCALE", &scale)
+                        .env("VERIF_WORKERS", workers)
+                        .env("VERIF_DIGEST", "1")
+                        .env("VERIF_DRY", "1")
+                        .env("VERIF_TIER", "quick")
+                        .output()
+                        .expect("spawn");
+                    let out = String::from_utf8_lossy(&o.stdout).to_string();
+                    let d = out.lines().find(|l| l.starts_with("DIGEST ")).map(|l| l.to_string()).unwrap_or_else(|| format!("NO DIGEST (exit {:?})", o.status.code()));
+                    digests.push(d);
+                }
+                digests
+            });
+            let mut bad = 0;
+            for (i, d) in results.iter().enumerate() {
+                if d.iter().any(|x| *x != d[0]) || d[0].starts_with("NO DIGEST") {
+                    bad += 1;
+                    println!("NONDETERMINISTIC {} seed {}: {:?}", jobs[i].0, jobs[i].1, d);
+                }
+            }
+            println!("selfcheck: {} (check, seed) pairs x 3 executions (workers 1 / 16 / 5, separate OS processes), {} mismatches", jobs.len(), bad);
+            if bad > 0 { 2 } else { 0 }
+        }
         "c13-child" => {
             let warm: u64 = args[2].parse().unwrap();
             let idx: Vec<usize> = args[3].split(',').filter_map(|x| x.parse().ok()).collect();
